@@ -32,7 +32,8 @@ def main():
             sorted(glob.glob(os.path.join(HERE, "mutants", "patches", "neutral3", "T*-n*.diff"))) + \
             sorted(glob.glob(os.path.join(HERE, "mutants", "patches", "neutral4", "U*-n*.diff"))) + \
             sorted(glob.glob(os.path.join(HERE, "mutants", "patches", "neutral5", "V*-n*.diff"))) + \
-            sorted(glob.glob(os.path.join(HERE, "mutants", "patches", "neutral6", "W*-n*.diff"))):
+            sorted(glob.glob(os.path.join(HERE, "mutants", "patches", "neutral6", "W*-n*.diff"))) + \
+            sorted(glob.glob(os.path.join(HERE, "mutants", "patches", "neutral7", "X*-n*.diff"))):
         b = os.path.basename(p)
         jobs.append(("neutral", b[:-5], p, b[1:4]))
     bad = 0
